@@ -146,6 +146,9 @@ where
     pub fn build<P: Into<PathBuf>>(&mut self, file: P) -> BuildResult {
         let file = file.into();
         self.working_dir = file.parent().unwrap().to_path_buf();
+        // Every build starts with no output lock held: a file that was built or imported
+        // earlier in the same invocation builds exactly as it does alone.
+        self.environment.borrow_mut().reset_out_locks();
         let ptr = self.environment.borrow_mut().get_ops_for_path(&file)?;
         let eval_result = self.eval_ops(ptr, Some(file.clone()));
         match eval_result {
